@@ -1,7 +1,13 @@
-"""C17 (leaf converters only): the inverses of the writers that CA import relies on."""
+"""C17: CA import - the field-by-field converter (engine M over from_ca_cert_der) and the leaf inverses of the writers (engine K)."""
+import mir_check
 from vcore import Query
 
 F = ["rcgen::KeyUsagePurpose::from_u16", "rcgen::KeyUsagePurpose::to_u16", "rcgen::ip_addr_from_octets"]
+
+
+def run_mir(tier, seed):
+    import caimport
+    return mir_check.run_obligations([caimport.ob_ca_import, caimport.ob_from_name], features="x509-parser")
 
 
 def spec(tier, seed):
@@ -11,9 +17,16 @@ def spec(tier, seed):
     for n in ((4,) if tier == "quick" else (0, 1, 3, 4, 5, 8, 15, 16, 17, 20)):
         qs.append(Query(name=f"c17_ip_octets_{n}", body=f"    c17::ip_octets::<{n}>();", unwind=24, family="ip_octets", config="parse", functions=F,
                         timeout=2400, field_sens=64, shape=f"ip_addr_from_octets on {n} arbitrary octets"))
-    return {"queries": qs, "exhaustive": False,
-            "bounds": "two leaf converters on publicly constructible inputs: all 65536 flag values; octet strings of the listed lengths with symbolic content",
-            "outside": "everything that needs a parsed X509Certificate (subject name, CA flag / path length, serial, validity, EKU, SAN and name-constraint "
-                       "conversion through x509-parser types, SKI capture, PEM vs DER, re-issuing): nom combinators, the OID registry HashMap and ring "
-                       "verification are not encodable; SanType::try_from_general and convert_x509_general_subtrees were not harnessed",
-            "assumptions": ["harness crate built with rcgen's x509-parser feature (configuration `parse`): ~10 min per query, dominated by the size of the goto program"]}
+    return {"queries": qs, "mir": run_mir, "exhaustive": False,
+            "bounds": "import (engine M): the MIR of CertificateParams::from_ca_cert_der and its six convert_x509_* functions (dumped with the x509-parser "
+                      "feature) executed on an arbitrary parsed certificate: arbitrary basic constraints (path length any u32), key-usage flag word, all seven "
+                      "purpose flags at once, 2 general names, <= 2 permitted / 1 excluded subtrees of arbitrary kinds and IP lengths, <= 2 extensions searched "
+                      "for the subject key identifier; every Ok path must recover each field from the corresponding parsed field. Leaves (engine K): "
+                      "two leaf converters on publicly constructible inputs: all 65536 flag values; octet strings of the listed lengths with symbolic content",
+            "outside": "the parser library itself (x509-parser's DER parser and extension accessors are the environment: each returns an arbitrary value of "
+                       "its type) and therefore the end-to-end statement 'import(generate(p)) == p' - it is decided per field against the parsed value, and "
+                       "the writers are C02/C04's; the converters DistinguishedName::from_name and SanType::try_from_general (uninterpreted); PEM decoding; "
+                       "re-issuing; more names / subtrees / extensions than the bounds",
+            "assumptions": ["engine M: calls into x509-parser / asn1-rs / std return arbitrary values of their types (contracts in mirsmt/caimport.py, csr.py); "
+                            "`x as u8` on integers is reduction modulo 256",
+                            "harness crate built with rcgen's x509-parser feature (configuration `parse`): ~10 min per query, dominated by the size of the goto program"]}
